@@ -404,7 +404,7 @@ def rules(tier):
     return [('C17.R1', r1_size_bound), ('C17.R2', r2_output_swap), ('C17.R3', r3_prince_folder), ('C17.R4', r4_prince_tally),
             ('C17.R6', lambda c, r: c09.r2_pairing(c, r, quals=[PG + '_recursive_guesses'], entries=('prince_ling.py',), floor=4, skip_markov=True)),
             ('C17.R7', c01.r1_heap_order), ('C17.R8', c01.r4_prob_pt_coupling), ('C17.R9', lambda c, r: c02.r1_adoption_kernel(c, r)),
-            ('C17.R10', c04.r2_structural_recursion), ('C17.R11', _mask_insertion), ('C17.R12', c01.r6_loader_order), ('C17.R13', r13_loaded_lists_unfiltered), ('C17.R14', _options_forwarded), ('C17.R15', _encoding_verbatim)] + _loader_bundle() + []
+            ('C17.R10', c04.r2_structural_recursion), ('C17.R11', _mask_insertion), ('C17.R12', c01.r6_loader_order), ('C17.R13', r13_loaded_lists_unfiltered), ('C17.R14', _options_forwarded), ('C17.R15', _encoding_verbatim), ('C17.R16', c01.r9_exact_float_discipline)] + _loader_bundle() + []
 
 
 META = {
